@@ -5,6 +5,8 @@ which stream datums are emitted for which event references.
 import BlueskyVerif.IO.NormalizerFlow
 
 namespace BlueskyVerif.NormFlow
+open BlueskyVerif.Normalizer (reservedKeys frameCounterInit frameNextIndex frameCarryCond frameCarryVal
+  framelessRange indicesOf seqNumsOf)
 
 /-! ### sequential composition -/
 
@@ -46,6 +48,15 @@ theorem seqFold_spec {X L : Type} {P : St → List L → List Out → St → Pro
     rw [andThen_outs h1, andThen_st h1]
     exact hP.app (hstep st x (by simp) h1) (ih _ (fun st' y hy => hstep st' y (by simp [hy])) h2)
 
+theorem andThen_assoc (r : Res) (g k : St → Res) :
+    (r.andThen g).andThen k = r.andThen (fun s => (g s).andThen k) := by
+  unfold Res.andThen
+  cases h : r.err with
+  | some e => simp [h]
+  | none =>
+    simp only
+    cases h2 : (g r.st).err <;> simp [h2, List.append_assoc]
+
 theorem seqFold_append {X : Type} (f : St → X → Res) :
     ∀ (xs ys : List X) (st : St),
       seqFold f st (xs ++ ys) = (seqFold f st xs).andThen (fun s => seqFold f s ys) := by
@@ -54,13 +65,10 @@ theorem seqFold_append {X : Type} (f : St → X → Res) :
   | nil => intro ys st; simp [seqFold, Res.andThen]
   | cons x xs ih =>
     intro ys st
-    simp only [List.cons_append, seqFold, ih]
-    unfold Res.andThen
-    cases h : (f st x).err with
-    | some e => simp
-    | none =>
-      simp only
-      cases h2 : (seqFold f (f st x).st xs).err <;> simp [List.append_assoc]
+    simp only [List.cons_append, seqFold, andThen_assoc]
+    congr 1
+    funext s
+    exact ih ys s
 
 /-! ### interleavings -/
 
@@ -200,9 +208,9 @@ theorem eventItem_PI (st0 : St) (filled : List (String × Bool)) (e : EventIn) (
   unfold eventItem at h ⊢
   unfold itemLab
   cases hx : isExtRef st0 filled kv.1 with
-  | false => simp only [hx]; exact PI_comp.nil st
+  | false => simp only [Bool.not_false, ↓reduceIte, Bool.false_eq_true]; exact PI_comp.nil st
   | true =>
-    simp only [hx, Bool.not_true] at h ⊢
+    simp only [hx, Bool.not_true, Bool.false_eq_true, ↓reduceIte] at h ⊢
     cases hp : popDatum st kv.2 with
     | none =>
       simp only [hp] at h ⊢
@@ -242,6 +250,12 @@ theorem handleEvent_PI (st : St) (e : EventIn) (h : (handleEvent st e).err = non
   rw [srcs_append]
   simpa [srcs, srcOf, refsOfEvent] using i1
 
+theorem foldl_handleDatum_extRefs : ∀ (ds : List Datum) (s : St), (ds.foldl handleDatum s).extRefs = s.extRefs := by
+  intro ds
+  induction ds with
+  | nil => intro s; rfl
+  | cons x xs ih => intro s; simp only [List.foldl_cons]; rw [ih]; rfl
+
 /-- references introduced by one input document (none for `stop`, which only flushes) -/
 def docRefs (st : St) : Doc → List ExtRef
   | .event e => refsOfEvent st e
@@ -258,12 +272,9 @@ theorem step_PI (st : St) (d : Doc) (hd : d ≠ .stop) (h : (step st d).err = no
   | start => exact ⟨[], by simp [step], by simpa [step, docRefs, srcs, srcOf] using Interleave.nil⟩
   | descriptor dd =>
     simp only [step, docRefs] at h ⊢
-    unfold handleDescriptor at h ⊢
-    split at h
-    · simp at h
-    · split
-      · rename_i h1 h2; exact absurd h2 h1
-      · exact ⟨[], by simp, by simpa [srcs, srcOf] using Interleave.nil⟩
+    cases hc : descClash dd with
+    | true => simp [handleDescriptor, hc] at h
+    | false => exact ⟨[], by simp [handleDescriptor, hc], by simpa [handleDescriptor, hc, srcs, srcOf] using Interleave.nil⟩
   | resource uid valid =>
     simp only [step, docRefs] at h ⊢
     split at h
@@ -280,12 +291,7 @@ theorem step_PI (st : St) (d : Doc) (hd : d ≠ .stop) (h : (step st d).err = no
       · exact ⟨[], by simp, by simpa [srcs, srcOf] using Interleave.nil⟩
   | datum dd => exact ⟨[], by simp [step, handleDatum], by simpa [step, docRefs, srcs] using Interleave.nil⟩
   | datumPage ds =>
-    refine ⟨[], ?_, by simpa [step, docRefs, srcs] using Interleave.nil⟩
-    simp only [step, List.append_nil]
-    generalize st = s
-    induction ds generalizing s with
-    | nil => rfl
-    | cons x xs ih => simp only [List.foldl_cons]; rw [ih]; rfl
+    exact ⟨[], by simp [step, foldl_handleDatum_extRefs], by simpa [step, docRefs, srcs] using Interleave.nil⟩
   | event e => exact handleEvent_PI st e h
   | eventPage es =>
     simp only [step, docRefs] at h ⊢
